@@ -642,6 +642,13 @@ func (l *lexer) scanComment(ch rune) rune {
 func (l *lexer) scanOperator(ch rune) (rune, rune) {
 	next := l.next() // Read the next character
 
+	// A character is its own token only below the numbers goyacc assigns to
+	// the named tokens, which start in the private use area: a raw U+E002
+	// must not be read as the keyword with that number.
+	if ch >= pathPrivate {
+		return utf8.RuneError, next
+	}
+
 	switch ch {
 	case '=':
 		if next == '=' {
